@@ -353,6 +353,44 @@ reg('C16', module='c16', level='exploration',
              'thorough': {'script_compared': 5000000,
                           'solver_steps_compared': 5000000}})
 
+reg('C19', module='c19', level='exploration',
+    technique=('runtime monitoring: real Portfolio objects over reference '
+               'solver processes with per-query delay and failure mode, '
+               'sys.monitoring delay points inside Portfolio._solve and '
+               '_run_solver, a liveness watch that decides "blocks for '
+               'ever" from the absence of live member processes; verdict, '
+               'model and value checked against brute-force truth'),
+    rule=('scenarios (one process group each): 2-4 members x delays '
+          '{0,1,2,5,20,100} ms incl. ties and near-ties x failure modes '
+          '{unknown, error, crash, garbage, unstartable binary, exit after '
+          'answer, hang} on subsets / on all members x exit_on_exception x '
+          'delay points {0,2,10,40} ms in parent and members x 1-5 cycles '
+          'of assert/push/pop/solve/get_model/get_value whose verdict '
+          'keeps flipping; duplicate member names; is_sat/is_valid/is_unsat '
+          'shortcuts with portfolio=; distinct = scenario specification'),
+    level_text=('Every verdict equals the brute-force truth of the live '
+                'assertions; every model / value obtained after sat '
+                'satisfies them; a failing member never turns into an '
+                'exception while another member answers (unless '
+                'exit_on_exception); when every member fails the call '
+                'raises; the parent is never found waiting with no member '
+                'process alive.'),
+    level_note='trusts vf/refsolver.py (members) and vf/refeval.py (truth)',
+    assumptions=['members are vf/refsolver.py processes behind the real '
+                 'SmtLibSolver text interface; the OS scheduler is '
+                 'perturbed by delays, not controlled: interleavings are '
+                 'sampled, not enumerated',
+                 'a hanging member is only combined with an answering one '
+                 '(a solver that runs for ever is not a failure)'],
+    require={'quick': {'scenarios_completed': 150, 'verdicts_observed': 300,
+                       'models_checked': 80, 'all_failed_reported_error': 10,
+                       'verdicts_with_failed_members': 40, 'near_ties': 40},
+             'thorough': {'scenarios_completed': 3000,
+                          'verdicts_observed': 6000, 'models_checked': 1500,
+                          'all_failed_reported_error': 300,
+                          'verdicts_with_failed_members': 800,
+                          'near_ties': 800}})
+
 reg('C20', module='c20', level='exploration',
     technique=('runtime monitoring: per-node callback counts observed from '
                'outside (wrapped walker function tables, sys.monitoring '
